@@ -46,6 +46,7 @@ impl Bound {
         match self {
             Self::Disabled => Punctuated::new(),
             Self::Auto => create_where_predicates_from_generic_parameters_check_types(
+                params,
                 bound_trait,
                 types,
                 supertraits,
